@@ -509,14 +509,31 @@ func c02final(c *an.Ctx) {
 func c02backindex(c *an.Ctx) {
 	for _, spec := range []struct{ pkg, typ, idx string }{{"nsqd", "inFlightPqueue", "index"}, {"internal/pqueue", "PriorityQueue", "Index"}} {
 		// slot stores paired with index stores
+		// Swap and Push must exist; any other method of the queue that stores an element into a slot obeys the same rule
+		var methods []*ssa.Function
 		for _, m := range []string{"Swap", "Push"} {
 			fn := c.Fn(spec.pkg, "("+spec.typ+")."+m)
 			if fn == nil {
 				fn = c.P.Func(spec.pkg, "(*"+spec.typ+")."+m)
 			}
-			if fn == nil {
+			if fn != nil {
+				methods = append(methods, fn)
+			}
+		}
+		for _, fn := range c.P.PkgFuncs(spec.pkg) {
+			if fn.Signature.Recv() == nil || fn.Name() == "Swap" || fn.Name() == "Push" {
 				continue
 			}
+			rt := fn.Signature.Recv().Type()
+			if pt, ok := rt.(*types.Pointer); ok {
+				rt = pt.Elem()
+			}
+			if nt, ok := rt.(*types.Named); ok && nt.Obj().Name() == spec.typ {
+				methods = append(methods, fn)
+			}
+		}
+		for _, fn := range methods {
+			required := fn.Name() == "Swap" || fn.Name() == "Push"
 			n, good := 0, true
 			an.Instrs(fn, func(in ssa.Instruction) {
 				st, ok := in.(*ssa.Store)
@@ -529,6 +546,9 @@ func c02backindex(c *an.Ctx) {
 				}
 				if _, isPtr := st.Val.Type().Underlying().(*types.Pointer); !isPtr {
 					return
+				}
+				if an.IsNilConst(st.Val) {
+					return // clearing a slot
 				}
 				n++
 				// look for store to <elem>.idx = ia.Index where elem is st.Val or a load of the same slot
@@ -568,6 +588,9 @@ func c02backindex(c *an.Ctx) {
 					good = false
 				}
 			})
+			if n == 0 && !required {
+				continue
+			}
 			c.Check(n > 0 && good, fn, "slot store paired with back-index store", fn.Pos(), "",
 				"an element is stored into a heap slot without recording that slot in the element's back-index: a later Remove(index) removes the wrong element")
 		}
